@@ -223,11 +223,13 @@ def shard(spec) -> core.Acc:
         specs = [('L', 'pre', '1')] + targets + [('L', 'post', '2')]
         sub = core.Acc()
         check_doc(sub, specs, CORNER_CONFIGS[:2], False, {'gen': 'unicode', 'role': role})
+        # the same targets inside a named block serialised on its own, so that start_indent / indent_braces take effect
+        check_doc(sub, [('B', 'wrap', specs)], CORNER_CONFIGS[2:], False, {'gen': 'unicode', 'role': role}, single_block_root=True)
         if sub.fail_counts:
             # localise: re-run one target at a time so the replay case is small
             for t in targets:
-                check_doc(acc, [('L', 'pre', '1'), t, ('L', 'post', '2')], CORNER_CONFIGS[:2], False,
-                          {'gen': 'unicode', 'role': role})
+                check_doc(acc, [('B', 'wrap', [('L', 'pre', '1'), t, ('L', 'post', '2')])], CORNER_CONFIGS, False,
+                          {'gen': 'unicode', 'role': role}, single_block_root=True)
         sub.fail_counts.clear()
         sub.fails.clear()
         acc.merge(sub)
